@@ -356,70 +356,57 @@ func C11(c *Ctx) {
 		}
 	}
 	if nc := c.fn("R11.3", "internal/ledger.NewChainLedgerImpl"); nc != nil {
-		isBlocks := callToMethod("Blocks")
-		isTrunc := callToMethod("TruncateBlocks")
-		// the comparison blocks > height
-		surplus := condEdges(nc, func(f core.Fact, ifi *ssa.If) (bool, int) {
-			bo, ok := ifi.Cond.(*ssa.BinOp)
-			if !ok {
-				return false, 0
+		key := "NewChainLedgerImpl: blockfile reconciled with the chain meta"
+		metaHeight := func(v ssa.Value) bool { return core.Mentions(v, fieldNamed("Height")) }
+		errIdxOf := func(fn *ssa.Function) int {
+			res := fn.Signature.Results()
+			for i := res.Len() - 1; i >= 0; i-- {
+				if res.At(i).Type().String() == "error" {
+					return i
+				}
 			}
-			isB := func(v ssa.Value) bool {
-				return core.Mentions(v, func(w ssa.Value) bool {
-					cc, ok := w.(*ssa.Call)
-					return ok && core.CalleeObj(cc) != nil && core.CalleeObj(cc).Name() == "Blocks"
-				})
+			return -1
+		}
+		found, ok := c.blockfileReconciled(nc, metaHeight, errIdxOf(nc))
+		if !found {
+			// the reconciliation may live in a helper of the ledger that receives the chain meta height
+			for _, call := range core.Calls(nc) {
+				cl, isCall := call.(*ssa.Call)
+				g := core.StaticCallee(call)
+				if !isCall || g == nil || len(g.Blocks) == 0 || core.PkgOf(g) != ledgerPkg {
+					continue
+				}
+				for ai, a := range call.Common().Args {
+					if !metaHeight(a) || ai >= len(g.Params) {
+						continue
+					}
+					gp := g.Params[ai]
+					gf, gok := c.blockfileReconciled(g, func(v ssa.Value) bool { return core.Mentions(v, func(w ssa.Value) bool { return w == ssa.Value(gp) }) }, errIdxOf(g))
+					if !gf {
+						continue
+					}
+					found = true
+					// every success return of the constructor lies behind the helper's no-error edge
+					es := core.EdgeSet{}
+					for bb, m := range core.SuccessEdges(nc, []core.GuardSite{{Call: cl, Conv: core.ConvErrNil, Idx: -1}}) {
+						for i := range m {
+							es.Add(bb, i)
+						}
+					}
+					rs := core.Reach([]core.Point{core.EntryOf(nc)}, nil, core.CutOf(es))
+					ok = gok && es.Len() > 0
+					for _, ret := range core.Returns(nc) {
+						if rs.Has(ret) && core.MayBeSuccess(nc, ret, errIdxOf(nc), core.ConvErrNil) {
+							ok = false
+						}
+					}
+				}
 			}
-			isH := func(v ssa.Value) bool { return core.Mentions(v, fieldNamed("Height")) }
-			switch {
-			case (bo.Op == token.GTR || bo.Op == token.NEQ) && isB(bo.X) && isH(bo.Y):
-				return true, 0
-			case (bo.Op == token.LSS || bo.Op == token.NEQ) && isH(bo.X) && isB(bo.Y):
-				return true, 0
-			case (bo.Op == token.LEQ || bo.Op == token.EQL) && isB(bo.X) && isH(bo.Y):
-				return true, 1
-			case (bo.Op == token.GEQ || bo.Op == token.EQL) && isH(bo.X) && isB(bo.Y):
-				return true, 1
-			}
-			return false, 0
-		})
-		okCmp := surplus.Len() > 0 && len(sites(nc, isBlocks)) > 0
-		if !okCmp {
-			r.Bad("R11.3", "NewChainLedgerImpl: blockfile reconciled with the chain meta", c.P.Pos(nc.Pos()), "the chain ledger is opened without comparing the blockfile size with the chain meta: blocks appended by a commit that did not finish stay in the blockfile and the next append fails (out of order)")
+		}
+		if !found {
+			r.Bad("R11.3", key, c.P.Pos(nc.Pos()), "the chain ledger is opened without comparing the blockfile size with the chain meta: blocks appended by a commit that did not finish stay in the blockfile and the next append fails (out of order)")
 		} else {
-			// from the surplus edge every success return passes TruncateBlocks
-			var starts []core.Point
-			for b, m := range surplus {
-				for i := range m {
-					starts = append(starts, core.Point{B: b.Succs[i], Idx: 0})
-				}
-			}
-			rs := core.Reach(starts, isTrunc, nil)
-			ok := true
-			for _, ret := range core.Returns(nc) {
-				if rs.Has(ret) && core.MayBeSuccess(nc, ret, 1, core.ConvErrNil) {
-					ok = false
-				}
-			}
-			// and no success return is reachable without passing the comparison
-			// (the comparison itself, not just the Blocks() call: a short-circuit in front of it skips the reconciliation)
-			isCmp := func(in ssa.Instruction) bool {
-				ifi, ok := in.(*ssa.If)
-				return ok && surplus[ifi.Block()] != nil
-			}
-			rs2 := core.Reach([]core.Point{core.EntryOf(nc)}, isCmp, nil)
-			for _, ret := range core.Returns(nc) {
-				if rs2.Has(ret) && core.MayBeSuccess(nc, ret, 1, core.ConvErrNil) {
-					ok = false
-				}
-			}
-			argOK := false
-			for _, in := range sites(nc, isTrunc) {
-				if core.Mentions(core.Arg(in.(ssa.CallInstruction), 0), fieldNamed("Height")) {
-					argOK = true
-				}
-			}
-			r.Check(ok && argOK, "R11.3", "NewChainLedgerImpl: blockfile reconciled with the chain meta", c.P.Pos(nc.Pos()), "Blocks() compared with chainMeta.Height, surplus truncated to chainMeta.Height on every success path", "the chain ledger can be opened with more blocks in the blockfile than the chain meta records")
+			r.Check(ok, "R11.3", key, c.P.Pos(nc.Pos()), "Blocks() compared with chainMeta.Height, surplus truncated to chainMeta.Height on every success path", "the chain ledger can be opened with more blocks in the blockfile than the chain meta records")
 		}
 	}
 	if ns := c.fn("R11.3", "internal/ledger.NewSimpleLedger"); ns != nil {
@@ -547,4 +534,75 @@ func (c *Ctx) chainBatchDiscipline(rule string) {
 		}
 	}
 	r.Floor(rule, "chain-ledger functions on the batch path", nBatchFns, 4)
+}
+
+
+// blockfileReconciled: fn compares bf.Blocks() with the chain meta height (isH recognises it) and, on the
+// surplus edge, passes TruncateBlocks(height) before every success return; no success return avoids the
+// comparison. found = the comparison exists in fn.
+func (c *Ctx) blockfileReconciled(fn *ssa.Function, isH func(ssa.Value) bool, errIdx int) (found, ok bool) {
+	isBlocks := callToMethod("Blocks")
+	isTrunc := callToMethod("TruncateBlocks")
+	surplus := condEdges(fn, func(f core.Fact, ifi *ssa.If) (bool, int) {
+		bo, ok := ifi.Cond.(*ssa.BinOp)
+		if !ok {
+			return false, 0
+		}
+		isB := func(v ssa.Value) bool {
+			return core.Mentions(v, func(w ssa.Value) bool {
+				cc, ok := w.(*ssa.Call)
+				return ok && core.CalleeObj(cc) != nil && core.CalleeObj(cc).Name() == "Blocks"
+			})
+		}
+		switch {
+		case (bo.Op == token.GTR || bo.Op == token.NEQ) && isB(bo.X) && isH(bo.Y):
+			return true, 0
+		case (bo.Op == token.LSS || bo.Op == token.NEQ) && isH(bo.X) && isB(bo.Y):
+			return true, 0
+		case (bo.Op == token.LEQ || bo.Op == token.EQL) && isB(bo.X) && isH(bo.Y):
+			return true, 1
+		case (bo.Op == token.GEQ || bo.Op == token.EQL) && isH(bo.X) && isB(bo.Y):
+			return true, 1
+		}
+		return false, 0
+	})
+	if surplus.Len() == 0 || len(sites(fn, isBlocks)) == 0 {
+		return false, false
+	}
+	success := func(ret *ssa.Return) bool {
+		return errIdx < 0 || core.MayBeSuccess(fn, ret, errIdx, core.ConvErrNil)
+	}
+	// from the surplus edge every success return passes TruncateBlocks
+	var starts []core.Point
+	for b, m := range surplus {
+		for i := range m {
+			starts = append(starts, core.Point{B: b.Succs[i], Idx: 0})
+		}
+	}
+	rs := core.Reach(starts, isTrunc, nil)
+	ok = true
+	for _, ret := range core.Returns(fn) {
+		if rs.Has(ret) && success(ret) {
+			ok = false
+		}
+	}
+	// and no success return is reachable without passing the comparison
+	// (the comparison itself, not just the Blocks() call: a short-circuit in front of it skips the reconciliation)
+	isCmp := func(in ssa.Instruction) bool {
+		ifi, ok := in.(*ssa.If)
+		return ok && surplus[ifi.Block()] != nil
+	}
+	rs2 := core.Reach([]core.Point{core.EntryOf(fn)}, isCmp, nil)
+	for _, ret := range core.Returns(fn) {
+		if rs2.Has(ret) && success(ret) {
+			ok = false
+		}
+	}
+	argOK := false
+	for _, in := range sites(fn, isTrunc) {
+		if isH(core.Arg(in.(ssa.CallInstruction), 0)) {
+			argOK = true
+		}
+	}
+	return true, ok && argOK
 }
